@@ -16,6 +16,17 @@ import tempfile
 from harness import core, fakefd
 from harness.core import Atom, Failure, Mismatch, Result, sx
 
+MANIFEST = dict(
+    design_ref="DESIGN.md §6 C14",
+    text="Coq theorems C14_moved/C14_created/C14_parents_first/C14_rekey over all content trees, names and non-empty "
+         "prefixes (structural induction, no size bound) about an executable model of generate_sub_moved_events, "
+         "generate_sub_created_events and the reader's re-key step; the model is tied to /repo by running the extracted "
+         "model and the real functions on the same on-disk trees (colliding name universe) on every run.",
+    note="Trusted: Coq kernel; os.walk order and posixpath.join are modelled (validated against CPython each run); "
+         "correspondence is sampled. Paths are non-empty and the destination has no trailing '/'.",
+    technique="Coq proof (structural induction over rose trees) + differential correspondence via extracted OCaml model",
+)
+
 TRUSTED = [
     "modelled, not verified: os.walk order and posixpath.join (model BStr.join validated against CPython in this run); "
     "the tree given to the model is the one the real os.walk reported",
